@@ -117,6 +117,15 @@ CHECKS = {
          "they fail loudly on an unknown shape); gcc build of the current cencoding.c. Round-trip of the model itself is tied by "
          "correspondence, not yet proved in Lean (see DESIGN).",
          "Lean 4 kernel-decided table obligations over regenerated tables + 3-way correspondence", "§6 C10"),
+ "C12": ("Partial by nature: Lean 4 theorems are about the code-shaped models (explicit Fault for every out-of-buffer access or "
+         "out-of-range shift): read_unsigned_var_int and read_rle are safe on every well-formed input, the 10-byte header scratch "
+         "buffers suffice for every count below 2^31, and for EVERY Statistics whose max is >= 500000 bytes the serialised form "
+         "exceeds the fixed buffer (the known overflow). The compiled code itself is executed on the C11 lattice and on "
+         "IDL-generated structures under an ASan+UBSan build rebuilt from the current .c, with exactly sized heap inputs; the "
+         "model's fault/no-fault verdict is compared with the sanitizer's on every case.",
+         "Trusted: Lean kernel + standard axioms; clang's sanitizers as the observer of the machine code; CPython/numpy are not "
+         "instrumented. Memory safety of the machine code is observed on the enumerated inputs, not proved.",
+         "Lean 4 proof (model-level safety) + sanitizer execution with fault-verdict correspondence", "§6 C12"),
 }
 
 def main():
